@@ -87,19 +87,34 @@ func (e *Exec) otherLockHeld(g *guardSpec, write bool) bool {
 	return false
 }
 
+// A write without an adequate lock is a breach at once. A read without a lock is a breach
+// only if the same cell (or map) is also WRITTEN while it is part of the guarded state on this
+// path: cells that are never written after they became reachable (immutable-after-publication
+// objects handed out of the critical section) are not mutable shared state.
 func (e *Exec) monitorAccess(p *Value, write bool) {
 	if len(e.guards) == 0 || e.lenient > 0 || e.spec > 0 {
 		return
 	}
 	for _, g := range e.guards {
-		if e.guardHeld(g, write) || e.otherLockHeld(g, write) {
-			continue
-		}
 		if p == g.mu {
 			continue
 		}
+		if e.guardHeld(g, write) || e.otherLockHeld(g, write) {
+			if write && e.reachable(g, p, nil) {
+				if where, ok := e.unlockedReads[p]; ok {
+					e.lockBreachAt(false, "memory cell (written under the lock elsewhere on this path)", where)
+				}
+				e.guardedWrites[p] = true
+			}
+			continue
+		}
 		if e.reachable(g, p, nil) {
-			e.lockBreach(write, "memory cell")
+			if write || e.guardedWrites[p] {
+				e.lockBreach(write, "memory cell")
+			}
+			if _, ok := e.unlockedReads[p]; !ok {
+				e.unlockedReads[p] = e.where()
+			}
 		}
 	}
 }
@@ -110,12 +125,36 @@ func (e *Exec) monitorMap(m *Map, write bool) {
 	}
 	for _, g := range e.guards {
 		if e.guardHeld(g, write) || e.otherLockHeld(g, write) {
+			if write && e.reachable(g, nil, m) {
+				if where, ok := e.unlockedMapReads[m]; ok {
+					e.lockBreachAt(false, "map (written under the lock elsewhere on this path)", where)
+				}
+				e.guardedMapWrites[m] = true
+			}
 			continue
 		}
 		if e.reachable(g, nil, m) {
-			e.lockBreach(write, "map")
+			if write || e.guardedMapWrites[m] {
+				e.lockBreach(write, "map")
+			}
+			if _, ok := e.unlockedMapReads[m]; !ok {
+				e.unlockedMapReads[m] = e.where()
+			}
 		}
 	}
+}
+
+func (e *Exec) lockBreachAt(write bool, what, where string) {
+	kind := "read"
+	if write {
+		kind = "write"
+	}
+	m := e.model
+	if m == nil {
+		m = map[string]uint64{}
+	}
+	e.violation("lockset", fmt.Sprintf("%s of guarded %s without holding the lock%s", kind, what, where), m, "")
+	panic(pathEnd{endViolation, "lockset"})
 }
 
 func (e *Exec) lockBreach(write bool, what string) {
